@@ -170,7 +170,7 @@ Example released_key_reused :
     Err [(Duplicated, WCANID)]; Ok; Ok ].
 Proof. vm_compute. reflexivity. Qed.
 
-Lemma covered_count : length covered_mutators = 33 ∧ length all_mutators = 57.
+Lemma covered_count : length covered_mutators = 33 ∧ length all_mutators = 59.
 Proof. split; vm_compute; reflexivity. Qed.
 
 (* ---- side condition (c): an interface removed from its node is attached to a bus, then the node
